@@ -95,6 +95,12 @@ def main():
                 bad += 1
                 continue
         for pid, x in r["props"].items():
+            if m.get("benign"):
+                ok = x["exit"] == 0
+                if not ok:
+                    bad += 1
+                print("%-40s %s %-8s %5.1fs %s" % (r["name"], pid, "quiet" if ok else "FALSE-ALARM(exit %d)" % x["exit"], x["s"], "" if ok else x["msg"][:110].replace("\n", " ")))
+                continue
             ok = x["exit"] == 1
             if not ok:
                 bad += 1
